@@ -156,10 +156,106 @@ def _function_at(line, builder):
     return ns['creator']
 
 
+FILE_KINDS = ['func', 'wrapped', 'wrapped2', 'method', 'create_after', 'task_params', 'obj']
+_MODULE_HEAD = '''"""generated dodo module (C18 harness, file mode)"""
+import functools
+from doit.loader import create_after, task_params
+
+BUILD = {}
+
+
+def logged(creator):
+    """an ordinary decorator shared by several task-creators"""
+    @functools.wraps(creator)
+    def wrapper(*args, **kwargs):
+        return creator(*args, **kwargs)
+    return wrapper
+
+
+def traced(creator):
+    @functools.wraps(creator)
+    def inner(*args, **kwargs):
+        return creator(*args, **kwargs)
+    return inner
+
+
+class _Obj(object):
+    pass
+
+
+def _ignored():
+    return {'actions': None}
+
+
+# a partial is neither a function nor a method: the loader must ignore it
+task_zz_partial = functools.partial(_ignored)
+
+'''
+_file_state = {'dir': None, 'n': 0}
+
+
+def file_key(c):
+    """the attribute name under which a file-mode creator lives in the module"""
+    return c['name'] if c.get('kind') == 'obj' else 'task_' + c['name']
+
+
+def module_source(case):
+    """python source of a dodo module defining the creators in the order of their `line`"""
+    out = [_MODULE_HEAD]
+    order = sorted(range(len(case['creators'])), key=lambda i: int(case['creators'][i]['line']))
+    for i in order:
+        c = case['creators'][i]
+        kind, nm = c.get('kind', 'func'), c['name']
+        body = '    return BUILD[%d]()\n' % i
+        if kind == 'wrapped':
+            out.append('@logged\ndef task_%s():\n%s' % (nm, body))
+        elif kind == 'wrapped2':
+            out.append('@traced\n@logged\ndef task_%s():\n%s' % (nm, body))
+        elif kind == 'method':
+            out.append('class _C%d(object):\n    def make(self):\n    %s\n\ntask_%s = _C%d().make\n' % (i, body, nm, i))
+        elif kind == 'create_after':
+            out.append('@create_after()\ndef task_%s():\n%s' % (nm, body))
+        elif kind == 'task_params':
+            out.append('@task_params([])\ndef task_%s():\n%s' % (nm, body))
+        elif kind == 'obj':
+            out.append('def _f%d():\n%s\n\n%s = _Obj()\n%s.create_doit_tasks = _f%d\n' % (i, body, nm, nm, i))
+        else:
+            out.append('def task_%s():\n%s' % (nm, body))
+        out.append('\n\n')
+    return ''.join(out)
+
+
+def build_module(case):
+    """write the module to a scratch file and import it (so that inspect.getsourcelines works on real source)"""
+    import importlib.util
+    common.use_repo()
+    from doit import task as doit_task
+    if _file_state['dir'] is None or _file_state.get('pid') != os.getpid():
+        _file_state['dir'] = common.scratch_dir('c18mod')
+        _file_state['pid'] = os.getpid()
+    _file_state['n'] += 1
+    name = 'c18mod_%d_%d' % (os.getpid(), _file_state['n'])
+    path = os.path.join(_file_state['dir'], name + '.py')
+    with open(path, 'w') as f:
+        f.write(module_source(case))
+    spec = importlib.util.spec_from_file_location(name, path)
+    mod = importlib.util.module_from_spec(spec)
+    spec.loader.exec_module(mod)
+    for i, c in enumerate(case['creators']):
+        mod.BUILD[i] = _builder(doit_task, c['result'])
+    return mod, path
+
+
 def build_namespace(case):
     """the dict of task-creators (what a dodo module's namespace would be)"""
     common.use_repo()
     from doit import task as doit_task
+    if case.get('mode') == 'file':
+        from doit.cmd_base import ModuleTaskLoader
+        mod, path = build_module(case)
+        ns = dict(ModuleTaskLoader(mod).namespace)      # = dict(inspect.getmembers(module)): alphabetical
+        # the source stays on disk until the process' scratch dir is removed (inspect reads it lazily)
+        return ns
     ns = {}
     for i, c in enumerate(case['creators']):
         f = _function_at(c['line'], _builder(doit_task, c['result']))
@@ -237,7 +333,10 @@ def model_request(case, cmds):
     common.use_repo()
     from doit import task as doit_task
     creators = []
-    for c in case['creators']:
+    listed = case['creators']
+    if case.get('mode') == 'file':
+        listed = sorted(listed, key=file_key)          # namespace order of a module: inspect.getmembers sorts by name
+    for c in listed:
         r = c['result']
         if r['k'] == 'dict':
             mr = {'k': 'dict', 'd': _model_dict(r['d'])}
